@@ -687,7 +687,8 @@ def bool_eval(e, atom_value):
         return l or bool_eval(e["r"], atom_value)
     v = atom_value(e)
     if v is None:
-        raise Unrecognised(f"boolean atom not understood: {e.get('k')}")
+        import hirpp
+        raise Unrecognised(f"condition `{hirpp.expr(e)[:80]}` (line {e.get('ln', '?')}) is not one the rule can evaluate")
     return v
 
 
